@@ -112,6 +112,7 @@ func runHistory(c *harness.Ctx, id string, r *rand.Rand) {
 	proposed := map[uint64]int{}
 	var env *ctlsim.Env
 	consumed := 0
+	startMode := 1
 	classes := map[string]bool{}
 	fail := func(key, what string) {
 		c.Violate(key, what, id, map[string]any{"history": h, "clock_slot": uint64(env.Clock.CurrentSlot()), "pending_jobs": jobNames(env), "attester_fetches": env.Duties.AttesterCalls, "proposer_fetches": env.Duties.ProposerCalls})
@@ -125,6 +126,17 @@ func runHistory(c *harness.Ctx, id string, r *rand.Rand) {
 			return false
 		}
 		sc.install(env.Duties, 0, e0+8)
+		startMode = 1
+		if slot%spe < spe-2 && r.Intn(4) == 0 {
+			// the clock moves on to the next slot while the proposer duties are being fetched; there are duties in both slots
+			startMode = 2
+			var once sync.Once
+			env.Duties.SetOnProposerFetch(func(uint64) { once.Do(func() { env.Clock.SetSlot(phase0.Slot(slot + 1)) }) })
+			env.Duties.Proposer[slot/spe] = append(env.Duties.Proposer[slot/spe], &apiv1.ProposerDuty{Slot: phase0.Slot(slot), ValidatorIndex: phase0.ValidatorIndex(vals[0])},
+				&apiv1.ProposerDuty{Slot: phase0.Slot(slot + 1), ValidatorIndex: phase0.ValidatorIndex(vals[1])})
+			classes["start-fetch-straddles-slot"] = true
+			c.Count("starts_with_fetch_across_slot_boundary", 1)
+		}
 		if err := env.Start(); err != nil {
 			c.Inconclusive("controller.New: " + err.Error())
 			return false
@@ -180,12 +192,12 @@ func runHistory(c *harness.Ctx, id string, r *rand.Rand) {
 		consumed = len(evs)
 	}
 	// the job table against the model
-	checkJobs := func(stage string, atRestart bool) {
+	checkJobs := func(stage string, restart int) {
 		ok := env.Eventually(func() bool {
-			return len(jobProblems(env, sc, spe, okFetch, okPFetch, opts.MaxProposalDelay, atRestart)) == 0
+			return len(jobProblems(env, sc, spe, okFetch, okPFetch, opts.MaxProposalDelay, restart)) == 0
 		})
 		if !ok {
-			for _, p := range jobProblems(env, sc, spe, okFetch, okPFetch, opts.MaxProposalDelay, atRestart) {
+			for _, p := range jobProblems(env, sc, spe, okFetch, okPFetch, opts.MaxProposalDelay, restart) {
 				fail(p[0]+":"+stage, p[1])
 			}
 		}
@@ -195,7 +207,7 @@ func runHistory(c *harness.Ctx, id string, r *rand.Rand) {
 	}
 	noteFetches()
 	absorb()
-	checkJobs("start", true)
+	checkJobs("start", startMode)
 	nSteps := 6 + r.Intn(10)
 	lastEventEpoch := uint64(0)
 	haveEvent := false
@@ -214,8 +226,12 @@ func runHistory(c *harness.Ctx, id string, r *rand.Rand) {
 			st = step{Op: "reorg-current"}
 		case x == 9:
 			st = step{Op: "fail-next-fetch"}
-		case x == 10 && r.Intn(2) == 0:
+		case x == 10 && r.Intn(3) == 0:
 			st = step{Op: "reorg-during-attest"}
+		case x == 10 && r.Intn(2) == 0:
+			st = step{Op: "reorg-both"}
+		case x == 11 && r.Intn(2) == 0:
+			st = step{Op: "tick-fetch-straddles-slot"}
 		case x == 10:
 			st = step{Op: "restart"}
 		default:
@@ -234,7 +250,46 @@ func runHistory(c *harness.Ctx, id string, r *rand.Rand) {
 			failing = true
 		case "stale-event":
 			env.HeadEvent(st.Arg, 77, 78) // not for the clock's slot: ignored
-		case "head-same", "reorg-previous", "reorg-current":
+		case "tick-fetch-straddles-slot":
+			// the epoch ticker runs late in the first slot of the next epoch, and the clock moves on to the second slot
+			// while the proposer duties are being fetched: the first slot's proposal is lost, not run late
+			s0 := (cur/spe + 1) * spe
+			env.StepTo(s0 - 1)
+			noteFetches()
+			absorb()
+			env.Clock.SetSlot(phase0.Slot(s0))
+			env.Duties.Proposer[s0/spe] = append(env.Duties.Proposer[s0/spe], &apiv1.ProposerDuty{Slot: phase0.Slot(s0), ValidatorIndex: phase0.ValidatorIndex(vals[2])})
+			pendingBefore := env.PendingOneOff()
+			var once sync.Once
+			env.Duties.SetOnProposerFetch(func(e uint64) {
+				if e == s0/spe {
+					once.Do(func() { env.Clock.SetSlot(phase0.Slot(s0 + 1)) })
+				}
+			})
+			env.Sched.RunSync("Epoch ticker")
+			env.Settle()
+			env.Duties.SetOnProposerFetch(nil)
+			noteFetches()
+			for name := range env.PendingOneOff() {
+				var ps uint64
+				if _, was := pendingBefore[name]; !was && (scan(name, "Beacon block proposal for slot %d", &ps) || scan(name, "Early beacon block proposal for slot %d", &ps)) && ps <= s0 {
+					fail("job-for-past-slot:tick-fetch-straddles-slot", fmt.Sprintf("the proposer duties of epoch %d arrived in slot %d; job %q was set up for slot %d, which is over", s0/spe, s0+1, name, ps))
+				}
+			}
+			// the jobs of the first slot that were set up before (attestations) ran in it; run them now
+			env.Clock.SetSlot(phase0.Slot(s0))
+			for name := range pendingBefore {
+				var as uint64
+				if scan(name, "Attestations for slot %d", &as) && as == s0 {
+					env.Sched.RunSync(name)
+					env.Settle()
+				}
+			}
+			env.Sched.CancelJobIfExists(context.Background(), fmt.Sprintf("Beacon block proposal for slot %d", s0))
+			env.Sched.CancelJobIfExists(context.Background(), fmt.Sprintf("Early beacon block proposal for slot %d", s0))
+			env.Clock.SetSlot(phase0.Slot(s0 + 1))
+			c.Count("epoch_ticks_with_fetch_across_slot_boundary", 1)
+		case "head-same", "reorg-previous", "reorg-current", "reorg-both":
 			epoch := cur / spe
 			newEpoch := haveEvent && epoch > lastEventEpoch
 			if newEpoch {
@@ -247,6 +302,17 @@ func runHistory(c *harness.Ctx, id string, r *rand.Rand) {
 					prevRoot += 100
 					sc.gen[epoch]++ // the attester duties of the current epoch change
 					sc.install(env.Duties, epoch, epoch)
+				}
+			case "reorg-both":
+				if haveEvent && epoch >= 2 && !newEpoch {
+					// a deep reorg: both dependent roots change in one event
+					prevRoot += 100
+					curRoot += 100
+					sc.gen[epoch]++
+					sc.pgen[epoch]++
+					sc.gen[epoch+1]++
+					sc.install(env.Duties, epoch, epoch+1)
+					c.Count("reorgs_of_both_roots", 1)
 				}
 			case "reorg-current":
 				if haveEvent && epoch >= 2 && !newEpoch {
@@ -333,11 +399,11 @@ func runHistory(c *harness.Ctx, id string, r *rand.Rand) {
 			haveEvent = false
 			noteFetches()
 			absorb()
-			checkJobs("restart", true)
+			checkJobs("restart", startMode)
 			continue
 		}
 		absorb()
-		checkJobs(st.Op, false)
+		checkJobs(st.Op, 0)
 	}
 	ks := make([]string, 0, len(classes))
 	for k := range classes {
@@ -350,8 +416,8 @@ func runHistory(c *harness.Ctx, id string, r *rand.Rand) {
 	c.Sample(h)
 }
 
-
-// syncWindow: sync committee message jobs exist for every slot of the window, whenever the controller is started.
+// syncWindow: sync committee message jobs exist for every slot of the window, for the members of that window's
+// committee, whenever the controller is started (also in the period of a fork epoch that is not on a period boundary).
 func syncWindow(c *harness.Ctx, id string, r *rand.Rand) {
 	const spe, period = 4, 8
 	vals := []uint64{11, 12, 13}
@@ -359,14 +425,21 @@ func syncWindow(c *harness.Ctx, id string, r *rand.Rand) {
 	if r.Intn(3) == 0 {
 		startEpoch = uint64(period - 5 + r.Intn(2)*period) // the epoch in which the next period is prepared
 	}
+	fork := uint64(0)
+	if r.Intn(3) == 0 {
+		fork = uint64(period + 1 + r.Intn(period-2)) // inside period 1, not on its boundary
+		startEpoch = fork + uint64(r.Intn(int(2*period-fork)))
+	}
 	start := startEpoch*spe + uint64(r.Intn(spe))
-	env, err := ctlsim.New(ctlsim.Options{SlotsPerEpoch: spe, EpochsPerPeriod: period, StartSlot: start, Validators: vals})
+	env, err := ctlsim.New(ctlsim.Options{SlotsPerEpoch: spe, EpochsPerPeriod: period, AltairForkEpoch: fork, StartSlot: start, Validators: vals})
 	if err != nil {
 		c.Inconclusive(err.Error())
 		return
 	}
-	for p := uint64(0); p < 5; p++ {
-		env.Duties.Sync[p] = []*apiv1.SyncCommitteeDuty{{ValidatorIndex: 11, ValidatorSyncCommitteeIndices: []phase0.CommitteeIndex{3}}}
+	// a different one of our validators sits in each period's committee
+	member := func(p uint64) uint64 { return vals[p%3] }
+	for p := uint64(0); p < 6; p++ {
+		env.Duties.Sync[p] = []*apiv1.SyncCommitteeDuty{{ValidatorIndex: phase0.ValidatorIndex(member(p)), ValidatorSyncCommitteeIndices: []phase0.CommitteeIndex{3}}}
 	}
 	if err := env.Start(); err != nil {
 		c.Inconclusive("controller.New: " + err.Error())
@@ -375,26 +448,39 @@ func syncWindow(c *harness.Ctx, id string, r *rand.Rand) {
 	end := start + period*spe + 2*spe
 	env.StepTo(end)
 	got := map[uint64]int{}
+	detail := map[string]any{"start_slot": start, "start_epoch": startEpoch, "epochs_per_period": period, "altair_fork_epoch": fork}
 	for _, ev := range env.Recorded() {
 		if ev.Kind == "sync-message" {
 			got[ev.Slot]++
+			// a message made in slot s is for the committee of slot s+1
+			if want := member((ev.Slot + 1) / spe / period); len(ev.Validators) != 1 || ev.Validators[0] != want {
+				key := "sync-message-for-another-period's-committee"
+				if fork > 0 {
+					key += ":fork-epoch-inside-a-period"
+				}
+				c.Violate(key, fmt.Sprintf("started in slot %d: the sync committee message job of slot %d ran for validators %v; the committee of slot %d (period %d) has our validator %d", start, ev.Slot, ev.Validators, ev.Slot+1, (ev.Slot+1)/spe/period, want), id, detail)
+				return
+			}
 		}
 	}
 	for s := start + 1; s < end; s++ {
+		if (s+1)/spe < fork {
+			continue // before the fork there are no sync committees
+		}
 		if got[s] == 0 {
 			key := "sync-message-job-missing"
 			if (s+1)/spe/period > startEpoch/period {
 				key += ":next-period"
 			}
-			c.Violate(key, fmt.Sprintf("started in slot %d (epoch %d): no sync committee message run for slot %d", start, startEpoch, s), id, map[string]any{"start_slot": start, "start_epoch": startEpoch, "epochs_per_period": period})
+			c.Violate(key, fmt.Sprintf("started in slot %d (epoch %d): no sync committee message run for slot %d", start, startEpoch, s), id, detail)
 			break
 		}
 		if got[s] > 1 {
-			c.Violate("sync-message-twice", fmt.Sprintf("sync committee messages ran %d times for slot %d", got[s], s), id, map[string]any{"start_slot": start})
+			c.Violate("sync-message-twice", fmt.Sprintf("sync committee messages ran %d times for slot %d", got[s], s), id, detail)
 		}
 	}
 	c.Count("sync_window_slots_checked", int64(end-start-1))
-	c.Distinct(fmt.Sprintf("syncwindow|epoch-in-period:%d|slot:%d", startEpoch%period, start%spe))
+	c.Distinct(fmt.Sprintf("syncwindow|epoch-in-period:%d|slot:%d|fork:%v", startEpoch%period, start%spe, fork > 0))
 }
 
 func jobNames(env *ctlsim.Env) []string {
@@ -407,7 +493,7 @@ func jobNames(env *ctlsim.Env) []string {
 }
 
 // jobProblems compares the pending one-off jobs with the model.
-func jobProblems(env *ctlsim.Env, sc *script, spe uint64, okFetch, okPFetch map[uint64]bool, propDelay time.Duration, atRestart bool) [][2]string {
+func jobProblems(env *ctlsim.Env, sc *script, spe uint64, okFetch, okPFetch map[uint64]bool, propDelay time.Duration, restart int) [][2]string {
 	var out [][2]string
 	now := uint64(env.Clock.CurrentSlot())
 	jobs := env.PendingOneOff()
@@ -487,7 +573,9 @@ func jobProblems(env *ctlsim.Env, sc *script, spe uint64, okFetch, okPFetch map[
 		if s < now {
 			out = append(out, [2]string{"job-for-past-slot", fmt.Sprintf("job %q is for a slot before the clock slot %d", name, now)})
 		}
-		if atRestart && s == now {
+		// (when the clock moved on while the proposer duties were being fetched, an attestation job may have been set up
+		// for what was then a future slot; a proposal job is set up only after that fetch)
+		if (restart == 1 || (restart == 2 && !strings.HasPrefix(name, "Attestations"))) && s == now {
 			out = append(out, [2]string{"job-for-current-slot-at-start", fmt.Sprintf("job %q was set up at (re)start for the slot already running", name)})
 		}
 	}
